@@ -159,9 +159,11 @@ func (k Keeper) Tx(ctx sdk.Context, caller, callee sdk.AccAddress, value uint64,
 	} else {
 		ret, err = newCVM.Execute(cache, bc, NewEventSink(ctx), callParams, code)
 	}
+	// The VM decrements the allowance in callParams: what is left is what was not used.
+	gasTracker = callParams.Gas.Uint64()
 	// Refund cannot exceed half of the total gas cost.
 	// Only refund when there is no error.
-	if err != nil {
+	if err == nil {
 		gasTracker = gasTracker + vm.Min((originalGas-gasTracker)/2, newCVM.GetRefund())
 	}
 
